@@ -68,6 +68,21 @@ PROPS = {
                         "From<&cst::StringValue> for String (rowan token access; the slices &text[1..len-1] / &text[3..len-3] -- their safety follows from lemma_lexer_accepts_only_decodable_strings's s.len() >= 2 only for quoted strings), "
                         "the copies into ast::Value / descriptions in apollo-compiler (from_cst.rs)"],
     },
+    "C09": {
+        "level": "proof",
+        "verus": ["serialize_string", "unescape"],
+        "technique": "Verus contract on the extracted serialize_string_value (unbounded), composed by checked lemmas with the C06 decoder contract and the C03 string grammar",
+        "explanation": "KERNEL ONLY (the quoted form). Verus proves on the extracted serialize_string_value, for every Unicode string, every position and configuration: whenever the function does not take the "
+                       "block-string branch, what it writes is a quote, a body, a quote, where the body is a lexically valid quoted-string body (valid_body) whose value under the static semantics of StringValue "
+                       "(decoded -- the shared specification text of unit unescape, C06) is exactly the string that was serialized. Unit unescape proves that unescape_string computes `decoded` on such bodies and that the "
+                       "lexer's string grammar (C03) implies valid_body; so serialize -> lex -> decode is the identity for the quoted form, each link over the extracted code of the function that implements it. "
+                       "The postcondition is the property (reads back as the same string), not one particular escaping: escaping more characters, or differently but correctly, still verifies.",
+        "assumptions": ["State::write appends to the output; `{:04X}` prints a byte as four upper-case hex digits; str::find returns the byte offset of the first char satisfying the predicate; "
+                        "str::split_at / byte-range slicing on char boundaries; the first UTF-8 byte of an ASCII char is that char (shims); listed rewrites method -> shim function, the find predicate kept verbatim",
+                        "the composition with the lexer is by lemma over the shared string grammar, not by running the lexer on the output"],
+        "not_decided": ["the block-string form: can_be_block_string and serialize_block_string (str::split / trim_start_matches / iterator adapters), i.e. every description and every multi-line value when newlines are enabled",
+                        "that values, default values and descriptions reach serialize_string_value unchanged from every nesting position (callers), and the parser / AST conversion on the way back (C02, C06's undecided wrapper)"],
+    },
     "C18": {
         "level": "proof",
         "verus": ["schema_lookup"],
